@@ -231,6 +231,35 @@ func famC02(r *Run) {
 	r.corpusSearch("compliance", func(f exprFeatures) bool { return f.lexOK && f.proj && !f.funcs })
 	r.treeCases("G-expr-proj", r.n(1500, 20000), Features{Proj: true, Paren: true, Logic: true}, 4)
 	r.treeCases("G-expr-proj-order-free", r.n(500, 8000), Features{Proj: true, Paren: true, Logic: true, OrderFree: true, Funcs: true}, 4)
+	r.treeCases("G-expr-proj-funcs", r.n(700, 10000), Features{Proj: true, Paren: true, Logic: true, Funcs: true}, 4)
+	// right-hand sides that turn null into something: every element counts
+	g := &Gen{rng: r.rng, feat: Features{Proj: true}}
+	for i := 0; i < r.n(150, 2000); i++ {
+		doc := g.rootDoc()
+		rhs := []*Ex{
+			{K: "call", Name: "type", Args: []Arg{{false, &Ex{K: "current"}}}},
+			{K: "call", Name: "to_array", Args: []Arg{{false, &Ex{K: "current"}}}},
+			{K: "call", Name: "not_null", Args: []Arg{{false, &Ex{K: "current"}}, {false, &Ex{K: "raw", Name: "was null"}}}},
+			{K: "call", Name: "to_string", Args: []Arg{{false, &Ex{K: "current"}}}},
+		}[r.rng.Intn(4)]
+		var l *Ex
+		if r.rng.Intn(2) == 0 {
+			l = g.identFor(doc)
+		}
+		var t *Ex
+		switch r.rng.Intn(4) {
+		case 0:
+			t = &Ex{K: "valproj", L: l, R: Rhs{1, rhs}}
+		case 1:
+			t = &Ex{K: "listproj", L: l, R: Rhs{1, rhs}}
+		case 2:
+			t = &Ex{K: "flatten", L: l, R: Rhs{1, rhs}}
+		default:
+			t = &Ex{K: "filter", L: l, Cond: &Ex{K: "cmp", Op: "==", L: &Ex{K: "current"}, Rt: &Ex{K: "current"}}, R: Rhs{1, rhs}}
+		}
+		text := t.text(textOpts{})
+		r.addTree("null-sensitive-rhs", t, text, doc, modeFor(text, doc))
+	}
 }
 
 // ---- C03: precedence ----
